@@ -11,6 +11,20 @@ otherwise an `Opaque "<text>"` item is emitted in its place (never silently skip
 do not mention the stream are only used for (a) resolving local variables that feed count expressions,
 (b) load-side recomputed members ("derived" members), (c) the type-tag guard and the `type` assignment.
 
+Behaviour-preserving refactorings must not change the generated schema (notes/serial2.md):
+  * a call of a helper of the SAME class (this->/implicit this, the object under construction, static, `Class::`-qualified
+    with the own class) or of a free function defined in the same file (or its header) that receives the stream is INLINED:
+    its body is walked by the same walker with the parameters bound to the arguments (`save(out)` called from
+    `save(out, encoding)`, `RePair *dict = loadNoSeq(in)`, `writeHeader(out, …)`, `n = readCount(in)`);
+  * stream-free helpers used in count expressions are evaluated symbolically (several statements, conditional updates,
+    early returns, nested helpers) and the count TEXT is the expanded expression, so introducing / removing / renaming a
+    helper such as numPaddedBytesFor() changes neither text nor meaning;
+  * a load-side local that only carries a value from the stream into one member (`n = loadValue…; dict->m = n;`) is
+    rendered as that member; the local that receives the type tag of a tagged class is always rendered `type`;
+  * `std::istream &in2 = in;` is another name of the stream; `for (i = 0; i != n; ++i)` is a counted loop;
+    `if (!(tag == K)) return nullptr;` is a guard.
+Whatever touches the stream and is not understood -- also inside an inlined helper -- is still emitted as Opaque.
+
 Usage:  translate_schema.py [-o OUT.v] [--json OUT.json] [-v]
 """
 import json, os, re, subprocess, sys, time, tempfile, shutil
@@ -227,9 +241,14 @@ class Fn:
         self.cls = tgt["cls"]
         self.params = [c for c in decl.get("inner", []) if c.get("kind") == "ParmVarDecl"]
         self.stream_id = None
+        self.stream_ids = set()  # the stream parameter, the stream parameters of inlined helpers, reference aliases
         for p in self.params:
             if re.search(r"stream", (p.get("type") or {}).get("qualType", "")):
-                self.stream_id = p["id"]; break
+                self.stream_id = p["id"]; self.stream_ids.add(p["id"]); break
+        self.decl_ids = {decl.get("id"), decl.get("previousDecl")} - {None}
+        self.alias = {}         # load side: id of a local that is only a temporary name of a member -> member name
+        self.extra_effects = [] # side effects found in the bodies of inlined helpers (save role)
+        self.inlined = []       # names of the helpers inlined into this body (for the log)
         self.locals = {}        # id -> (text, cexp)   pure local definitions
         self.own = set()        # ids of locals that hold the object under construction
         self.loopvars = set()
@@ -254,7 +273,7 @@ class Fn:
 
 def touches(n, fn):
     if not isinstance(n, dict): return False
-    if n.get("kind") == "DeclRefExpr" and (n.get("referencedDecl") or {}).get("id") == fn.stream_id:
+    if n.get("kind") == "DeclRefExpr" and (n.get("referencedDecl") or {}).get("id") in fn.stream_ids:
         return True
     return any(touches(c, fn) for c in n.get("inner", []))
 
@@ -263,7 +282,7 @@ def only_good(n, fn):
     ok = [True]
     def w(x, parent_is_good):
         if not isinstance(x, dict): return
-        if x.get("kind") == "DeclRefExpr" and (x.get("referencedDecl") or {}).get("id") == fn.stream_id:
+        if x.get("kind") == "DeclRefExpr" and (x.get("referencedDecl") or {}).get("id") in fn.stream_ids:
             if not parent_is_good: ok[0] = False
             return
         pg = False
@@ -369,10 +388,10 @@ def rx(n, fn):
         args = [rx(x, fn) for x in n["inner"][1:]]
         if cname == "pow" and len(args) == 2 and args[0][1] == ("lit", 2):
             return ("pow2(%s)" % args[1][0], ("pow2", args[1][1]) if args[1][1] is not None else None)
-        inl = fn.inliner(cname, len(args), fn) if fn.inliner else None
-        if inl is not None and all(a[1] is not None for a in args):
-            ce = subst_cexp(inl[1], dict(zip(inl[0], [a[1] for a in args])))
-            return ("%s(%s)" % (cname, ",".join(a[0] for a in args)), ce)
+        if fn.inliner:
+            ref = (callee or {}).get("referencedDecl") or {}
+            r = fn.inliner.pure_call(ref.get("id"), cname, ref.get("kind"), args, fn)
+            if r is not None: return r
         return ("%s(%s)" % (cname, ",".join(a[0] for a in args)), None)
     if k == "CXXMemberCallExpr":
         callee = unwrap(n["inner"][0])
@@ -386,10 +405,9 @@ def rx(n, fn):
             else:
                 pre = ""
             t = "%s%s(%s)" % (pre, meth, ",".join(a[0] for a in args))
-            if args and pre == "" and fn.inliner and all(a[1] is not None for a in args):
-                inl = fn.inliner(meth, len(args), fn)
-                if inl is not None:
-                    return (t, subst_cexp(inl[1], dict(zip(inl[0], [a[1] for a in args]))))
+            if pre == "" and fn.inliner:
+                r = fn.inliner.pure_call(callee.get("referencedMemberDecl"), meth, "CXXMethodDecl", args, fn)
+                if r is not None: return r
             return (t, ("var", t) if not args else None)
         return ("<membercall>", None)
     if k == "CXXNewExpr":
@@ -431,6 +449,8 @@ class Walker:
         self.cnt = {}      # count/cond text -> cexp|None
         self.first_expr = None   # AST node of the first saved scalar's expression (tag source)
         self.nested_args = []    # (nested class, extra argument text, is_constant)
+        self.inline_stack = []   # ids of the helper definitions being inlined (recursion guard)
+        self.ret_targets = []    # name that receives the value returned by the helper being inlined
 
     # ---- helpers
     def note_cnt(self, text, ce):
@@ -470,13 +490,25 @@ class Walker:
             for d in n.get("inner", []):
                 if d.get("kind") != "VarDecl": continue
                 init = d["inner"][-1] if d.get("inner") else None
+                if init is not None and self.is_stream(init) and \
+                        re.search(r"stream\s*&$", strip_type((d.get("type") or {}).get("qualType", ""))):
+                    fn.stream_ids.add(d["id"]); continue        # std::istream &in = fp;  -- another name of the stream
                 if init is not None and touches(init, fn):
-                    before = len(out)
-                    self.io_expr(init, d.get("name"), out, decl=d)
+                    before = len(out); ninl = len(fn.inlined)
+                    self.io_expr(init, fn.alias.get(d["id"], d.get("name")), out, decl=d)
+                    if d["id"] in fn.alias:
+                        fn.locals[d["id"]] = (fn.alias[d["id"]], ("var", fn.alias[d["id"]]))
+                    if len(fn.inlined) > ninl and fn.is_own_type(d.get("type") or {}):
+                        fn.own.add(d["id"]); continue           # C *dict = helper(in);  -- the object under construction
                     if len(out) == before + 1 and out[-1][0] in ("Scalar", "Array"):
                         fn.stream_locals[d["id"]] = d.get("name")
                         if fn.tag_local_id is None and before == 0 and out[-1][0] == "Scalar":
                             fn.tag_local_id = d["id"]
+                            if fn.role == "load" and fn.tgt.get("kind") in ("dict", "tagged") and not self.inline_stack:
+                                # the local that receives the type tag is a bound name: always rendered as `type`
+                                # (the member it stands for), whatever the source calls it (type, _type, tag, kind …)
+                                out[-1] = ("Scalar", out[-1][1], "type")
+                                fn.locals[d["id"]] = ("type", ("var", "type"))
                 else:
                     self.pure_decl(d)
             return
@@ -498,7 +530,7 @@ class Walker:
         if k == "SwitchStmt":
             self.switch_stmt(n, out); return
         if k == "ReturnStmt":
-            if n.get("inner"): self.io_expr(n["inner"][0], None, out)
+            if n.get("inner"): self.io_expr(n["inner"][0], self.ret_targets[-1] if self.ret_targets else None, out)
             return
         self.io_expr(n, None, out)
 
@@ -522,7 +554,8 @@ class Walker:
                     var = l["referencedDecl"]["id"]; lo = rx(i0["inner"][1], fn)
         c0 = unwrap(cond)
         cnt = None
-        if var and lo and c0 and c0.get("kind") == "BinaryOperator" and c0.get("opcode") in ("<", "<="):
+        if var and lo and c0 and c0.get("kind") == "BinaryOperator" and \
+                (c0.get("opcode") in ("<", "<=") or (c0.get("opcode") == "!=" and lo[1] == ("lit", 0))):
             l = unwrap(c0["inner"][0])
             inc0 = unwrap(inc)
             inc_ok = inc0 and inc0.get("kind") == "UnaryOperator" and inc0.get("opcode") == "++" and \
@@ -530,7 +563,7 @@ class Walker:
             if l.get("kind") == "DeclRefExpr" and l["referencedDecl"]["id"] == var and inc_ok:
                 hi = rx(c0["inner"][1], fn)
                 op = c0["opcode"]
-                if lo[1] == ("lit", 0) and op == "<": cnt = hi
+                if lo[1] == ("lit", 0) and op in ("<", "!="): cnt = hi
                 elif lo[1] == ("lit", 1) and op == "<=": cnt = hi
                 elif op == "<":
                     cnt = ("(%s-%s)" % (hi[0], lo[0]), ("bin", "-", hi[1], lo[1]) if hi[1] and lo[1] else None)
@@ -631,7 +664,13 @@ class Walker:
             if touches(lhs, fn):
                 self.opaque(e, out); return
             lt, _ = rx(lhs, fn)
-            self.io_expr(rhs, lt, out); return
+            ninl = len(fn.inlined)
+            self.io_expr(rhs, lt, out)
+            l0 = unwrap(lhs)
+            if len(fn.inlined) > ninl and l0 and l0.get("kind") == "DeclRefExpr" and fn.is_own_type(l0.get("type") or {}):
+                rid = (l0.get("referencedDecl") or {}).get("id")
+                fn.own.add(rid); fn.locals.pop(rid, None)
+            return
         if k == "CallExpr":
             callee = unwrap(e["inner"][0])
             ref = (callee or {}).get("referencedDecl") or {}
@@ -676,6 +715,13 @@ class Walker:
                             self.note_cnt(ct, cc)
                             out.append(("Array", sz, ct)); return
                 self.opaque(e, out); return
+            # helper of the same class (static, unqualified or qualified with the own class) or free function of the
+            # same file that receives the stream: its body is inlined
+            if ref.get("kind") in ("CXXMethodDecl", "FunctionDecl") and any(self.is_stream(a) for a in args):
+                qc, _ = self.callee_qual(callee)
+                if (ref.get("kind") == "FunctionDecl" or qc is None or qc == fn.cls) and \
+                        self.inline_call(ref.get("id"), cname, ref.get("kind"), args, target, out):
+                    return
             # static Class::load(in, ...)
             if ref.get("kind") == "CXXMethodDecl" and args and self.is_stream(args[0]) and not any(touches(a, fn) for a in args[1:]):
                 c, m = self.callee_qual(callee)
@@ -697,6 +743,10 @@ class Walker:
                     if meth in ("write", "read") and len(args) == 2 and not touches(args[0], fn) and not touches(args[1], fn):
                         if self.raw_rw(args[0], args[1], out): return
                     self.opaque(e, out); return
+                # method of the same class called on this / the object under construction with the stream: inlined
+                if (obj is None or is_own_base(obj, fn)) and any(self.is_stream(a) for a in args) and \
+                        self.inline_call(callee.get("referencedMemberDecl"), meth, "CXXMethodDecl", args, target, out):
+                    return
                 if meth == "save" and args and self.is_stream(args[0]) and obj is not None and not touches(obj, fn) \
                         and not any(touches(a, fn) for a in args[1:]):
                     oty = (unwrap(obj) or {}).get("type") or {}
@@ -737,9 +787,53 @@ class Walker:
             self.opaque(e, out); return
         self.opaque(e, out)
 
+    def inline_call(self, rid, name, kind, args, target, out):
+        """Inline the body of a same-class / same-file helper that receives the stream: its statements go through the
+        same walker (so whatever is not understood in it still becomes Opaque).  Parameters are bound to the symbolic
+        values of the arguments, a parameter bound to `this` / the object under construction becomes another name of
+        it, `return <io expression>` gives its item the caller's target name.  False = not inlined (nothing changed)."""
+        fn = self.fn
+        inl = fn.inliner
+        if inl is None or rid is None or rid in fn.decl_ids: return False
+        d = inl.find_decl(fn, rid, name, len(args), kind)
+        if d is None: return False
+        did = d.get("id")
+        if did in fn.decl_ids or did in self.inline_stack or len(self.inline_stack) >= 4: return False
+        params = [c for c in d.get("inner", []) if c.get("kind") == "ParmVarDecl"]
+        binds = []; nstream = 0
+        for p_, a in zip(params, args):
+            if self.is_stream(a):
+                if not re.search(r"stream\s*&$", strip_type((p_.get("type") or {}).get("qualType", ""))): return False
+                binds.append((p_, None)); nstream += 1
+            elif touches(a, fn): return False
+            else: binds.append((p_, a))
+        if nstream != 1: return False
+        for p_, a in binds:
+            if a is None: fn.stream_ids.add(p_["id"])
+            elif unwrap(a) is not None and unwrap(a).get("kind") == "CXXDefaultArgExpr": pass
+            elif is_own_base(a, fn) or self.is_deref_own(a): fn.own.add(p_["id"])    # helper(in, this) / helper(in, *dict)
+            else: fn.locals[p_["id"]] = rx(a, fn)
+        body = [c for c in d.get("inner", []) if c.get("kind") == "CompoundStmt"][0]
+        if fn.role == "load": fn.alias.update(local_member_aliases(body, fn))
+        self.inline_stack.append(did); self.ret_targets.append(target)
+        fn.inlined.append(name)
+        try:
+            self.stmts(body, out)
+        finally:
+            self.inline_stack.pop(); self.ret_targets.pop()
+        if fn.role == "save":
+            for e in side_effects(body, fn):
+                if e not in fn.extra_effects: fn.extra_effects.append(e)
+        return True
+
+    def is_deref_own(self, a):
+        a = unwrap(a)
+        return bool(a) and a.get("kind") == "UnaryOperator" and a.get("opcode") == "*" and a.get("inner") and \
+            is_own_base(a["inner"][0], self.fn)
+
     def is_stream(self, n):
         n = unwrap(n)
-        return bool(n) and n.get("kind") == "DeclRefExpr" and (n.get("referencedDecl") or {}).get("id") == self.fn.stream_id
+        return bool(n) and n.get("kind") == "DeclRefExpr" and (n.get("referencedDecl") or {}).get("id") in self.fn.stream_ids
 
     def raw_rw(self, buf, length, out):
         """stream.write((char*)&x, sizeof(T)) -> Scalar;  stream.write((char*)p, n*sizeof(T)) -> Array sizeof(T) n"""
@@ -807,8 +901,7 @@ class Walker:
                 val = rx(rhs, fn)
             if lhs.get("kind") == "DeclRefExpr":
                 rid = lhs["referencedDecl"]["id"]
-                if rid not in fn.stream_locals:
-                    fn.locals[rid] = val
+                fn.locals[rid] = val       # (for a local that was read from the stream: its value from here on)
                 return
             if lhs.get("kind") == "MemberExpr" and lhs.get("inner") and is_own_base(lhs["inner"][0], fn):
                 name = lhs.get("name")
@@ -828,8 +921,13 @@ class Walker:
             inner = e.get("inner", [])
             cond = unwrap(inner[0]); then = inner[1]; els = inner[2] if len(inner) > 2 else None
             # guard:  if (T != K) return NULL;   (T = local holding the first scalar read)
-            if fn.role == "load" and cond.get("kind") == "BinaryOperator" and cond.get("opcode") == "!=":
-                l, r = unwrap(cond["inner"][0]), unwrap(cond["inner"][1])
+            gcond = cond
+            if cond.get("kind") == "UnaryOperator" and cond.get("opcode") == "!" and cond.get("inner"):
+                c1 = unwrap(cond["inner"][0])       # if (!(T == K)) return NULL;
+                if c1 and c1.get("kind") == "BinaryOperator" and c1.get("opcode") == "==":
+                    gcond = dict(c1); gcond["opcode"] = "!="
+            if fn.role == "load" and gcond.get("kind") == "BinaryOperator" and gcond.get("opcode") == "!=":
+                l, r = unwrap(gcond["inner"][0]), unwrap(gcond["inner"][1])
                 def is_tag(x): return x.get("kind") == "DeclRefExpr" and x["referencedDecl"]["id"] == fn.tag_local_id
                 other = r if is_tag(l) else (l if is_tag(r) else None)
                 if other is not None and fn.tag_local_id is not None and fn.guard is None and len(out) == 1:
@@ -863,12 +961,21 @@ class Walker:
         if k in ("ForStmt", "WhileStmt", "DoStmt", "CXXForRangeStmt"):
             # locals assigned in a stream-free loop become unknown
             for rid in assigned_locals(e):
-                if rid in fn.locals: fn.locals[rid] = ("<loop:%s>" % fn.locals[rid][0], None)
+                fn.locals[rid] = ("<loop:%s>" % fn.locals.get(rid, ("?",))[0], None)
             return
         if k == "CompoundStmt":
             for c in e.get("inner", []): self.stmts(c, out)
             return
-        # anything else: no effect on the image
+        if k == "UnaryOperator" and e.get("opcode") in ("++", "--") and e.get("inner"):
+            l = unwrap(e["inner"][0])
+            if l is not None and l.get("kind") == "DeclRefExpr":    # n++;  on a local that may feed a count
+                a, ca = rx(l, fn)
+                op = "+" if e["opcode"] == "++" else "-"
+                fn.locals[l["referencedDecl"]["id"]] = ("(%s%s1)" % (a, op), ("bin", op, ca, ("lit", 1)) if ca is not None else None)
+                return
+        # anything else: no item of the image; locals it modifies in a way that is not understood become unknown
+        for rid in assigned_locals(e):
+            fn.locals[rid] = ("<modified:%s>" % fn.locals.get(rid, ("?",))[0], None)
         return
 
     def guard_action(self, then):
@@ -883,6 +990,45 @@ class Walker:
             if ((c or {}).get("referencedDecl") or {}).get("name") in ("abort", "exit"):
                 return "abort"
         return None
+
+def local_member_aliases(body, fn):
+    """load side:  `T n = loadValue<T>(in); … obj->m = n;`  -- a local that receives a value read from the stream and is
+    copied unchanged into exactly one member of the object under construction (which is assigned nowhere else) is just
+    another name of that member: {VarDecl id: member name}.  (Reading into a local first must give the same schema as
+    reading into the member directly.)"""
+    cand = {}; writes = {}; member_assigns = {}
+    def own_base(b):
+        b = unwrap(b)
+        if b is None: return False
+        if b.get("kind") == "CXXThisExpr": return True
+        return b.get("kind") == "DeclRefExpr" and fn.is_own_type((b.get("referencedDecl") or {}).get("type") or {})
+    def w(x):
+        if not isinstance(x, dict): return
+        k = x.get("kind")
+        if k == "VarDecl" and x.get("inner"):
+            i0 = unwrap(x["inner"][-1])
+            if i0 is not None and i0.get("kind") == "CallExpr" and touches(i0, fn):
+                c = unwrap(i0["inner"][0])
+                if ((c or {}).get("referencedDecl") or {}).get("name") == "loadValue": cand[x["id"]] = x.get("name")
+        if k == "BinaryOperator" and x.get("opcode") == "=" and len(x.get("inner", [])) == 2:
+            l = unwrap(x["inner"][0]); r = unwrap(x["inner"][1])
+            if l is not None and l.get("kind") == "MemberExpr" and l.get("inner") and own_base(l["inner"][0]):
+                member_assigns[l.get("name")] = member_assigns.get(l.get("name"), 0) + 1
+                if r is not None and r.get("kind") == "DeclRefExpr":
+                    writes.setdefault((r.get("referencedDecl") or {}).get("id"), set()).add(l.get("name"))
+        elif k in ("CompoundAssignOperator", "UnaryOperator") and x.get("inner"):
+            l = unwrap(x["inner"][0])
+            if l is not None and l.get("kind") == "MemberExpr" and (k == "CompoundAssignOperator" or x.get("opcode") in ("++", "--")):
+                member_assigns[l.get("name")] = member_assigns.get(l.get("name"), 0) + 2
+        for c in x.get("inner", []): w(c)
+    w(body)
+    reassigned = assigned_locals(body)
+    res = {}
+    for vid, ms in writes.items():
+        if vid in cand and vid not in reassigned and len(ms) == 1:
+            m = next(iter(ms))
+            if member_assigns.get(m) == 1: res[vid] = m
+    return res
 
 def side_effects(n, fn):
     """state changes inside a `save` body: delete-expressions and writes to members of the object (C08: save is pure)"""
@@ -951,31 +1097,131 @@ def read_consts():
 # ---------------------------------------------------------------------------------------------------
 # inlining of one-line helper functions used in count expressions (numBytesFor …)
 # ---------------------------------------------------------------------------------------------------
+class Unsupported(Exception):
+    pass
+
+NORET = ("<no return>", None)
+
+def contains_return(n):
+    if not isinstance(n, dict): return False
+    if n.get("kind") == "ReturnStmt": return True
+    if n.get("kind") == "LambdaExpr": return False
+    return any(contains_return(c) for c in n.get("inner", []))
+
 class Inliner:
+    """Finds the definition of a helper called from a save/load body (same clang process: matched by declaration id;
+    free functions of the same file that the `Class::` filter did not dump: one extra clang run by name) and
+    evaluates stream-free helpers symbolically:  pure_call -> (text, cexp).  The text is the EXPANDED expression
+    (arguments substituted for the parameters), so that introducing, removing or renaming a helper does not change
+    the count texts of the schema."""
+    NEVER = ("saveValue", "loadValue", "pow", "max", "min")
     def __init__(self, consts, asts):
-        self.cache = {}
         self.consts = consts
         self.asts = asts
-    def __call__(self, name, nargs, fn):
-        if name in ("saveValue", "loadValue", "pow", "max", "min"): return None
-        key = (name, nargs, fn.file)
-        if key in self.cache: return self.cache[key]
-        self.cache[key] = None
-        objs = [o for (f, _), os_ in self.asts.items() if f == fn.file for o in os_]
-        for o in objs:
-            if o.get("name") != name or o.get("kind") not in ("FunctionDecl", "CXXMethodDecl"): continue
+        self.active = []        # ids of the helper bodies being evaluated (recursion guard)
+        self.decl_cache = {}
+        self.lazy = {}
+
+    def objs_of(self, fn):
+        objs = getattr(fn, "objs", None)
+        if objs is not None: return objs
+        return [o for (f, _), os_ in self.asts.items() if f == fn.file for o in os_]
+
+    def find_decl(self, fn, rid, name, nargs, kind):
+        """the definition (declaration WITH body) of the function a call refers to, or None"""
+        if name in self.NEVER or not name: return None
+        key = (id(self.objs_of(fn)) if getattr(fn, "objs", None) is not None else fn.file, rid, name, nargs)
+        if key in self.decl_cache: return self.decl_cache[key]
+        def ok(o):
+            if o.get("name") != name or o.get("kind") not in ("FunctionDecl", "CXXMethodDecl"): return False
             inner = o.get("inner", [])
-            body = [c for c in inner if c.get("kind") == "CompoundStmt"]
-            params = [c for c in inner if c.get("kind") == "ParmVarDecl"]
-            if not body or len(params) != nargs: continue
-            st = body[0].get("inner", [])
-            if len(st) != 1 or st[0].get("kind") != "ReturnStmt" or not st[0].get("inner"): continue
-            f2 = Fn(dict(cls="?"), o, fn.file, "inline", self.consts, None)
-            t, c = rx(st[0]["inner"][0], f2)
-            if c is None: continue
-            self.cache[key] = ([p.get("name") for p in params], c)
-            break
-        return self.cache[key]
+            if not any(c.get("kind") == "CompoundStmt" for c in inner): return False
+            return len([c for c in inner if c.get("kind") == "ParmVarDecl"]) == nargs
+        res = None
+        for o in self.objs_of(fn):
+            if ok(o) and rid is not None and (o.get("id") == rid or o.get("previousDecl") == rid):
+                res = o; break
+        if res is None and kind == "FunctionDecl":
+            # a free (static) function of the same file: not dumped by the `Class::` filter -> one clang run by name;
+            # declaration ids are not comparable between clang processes, so it is matched by name and arity
+            lk = (fn.file, name)
+            if lk not in self.lazy and not self.defined_nearby(fn.file, name):
+                self.lazy[lk] = []
+            if lk not in self.lazy:
+                so, se, rc = run_clang(fn.file, name)
+                objs = parse_multi(so)
+                annotate_files(objs)
+                self.lazy[lk] = objs
+            cands = [o for o in self.lazy[lk] if ok(o) and o.get("kind") == "FunctionDecl"
+                     and (loc_of(o.get("loc")) or {}).get("_file", "").startswith(REPO + "/")]
+            if len(cands) == 1: res = cands[0]
+        self.decl_cache[key] = res
+        return res
+
+    def defined_nearby(self, file, name):
+        """cheap textual test (before paying for a clang run): does the file or its header contain a definition
+        `<type> name(...) {` ?"""
+        pat = re.compile(r"(?m)^[ \t]*(?:(?:static|inline|constexpr|const)\s+)*[A-Za-z_][\w:<>]*[\w:<>\*&\s]*?\b" + re.escape(name) +
+                         r"\s*\([^;{}]*\)\s*(?:noexcept\s*)?\{")
+        stem = re.sub(r"\.(cpp|cc|cxx)$", "", file)
+        for f in (file, stem + ".h", stem + ".hpp"):
+            t = source(os.path.join(REPO, f)).decode("utf-8", "replace")
+            if t and pat.search(t): return True
+        return False
+
+    def pure_call(self, rid, name, kind, args, fn):
+        """symbolic value (text, cexp) of a call of a stream-free helper with the argument values `args`
+        (list of (text, cexp)); None when the helper is not found or not understood"""
+        if name in self.NEVER or any(a[1] is None for a in args): return None
+        d = self.find_decl(fn, rid, name, len(args), kind)
+        if d is None or d.get("virtual") or d.get("pure"): return None
+        if d.get("id") in self.active or len(self.active) >= 6: return None
+        f2 = Fn(dict(cls=fn.cls), d, fn.file, "inline", self.consts, self)
+        if f2.stream_ids: return None
+        f2.objs = getattr(fn, "objs", None)
+        f2.macro_consts = fn.macro_consts
+        for p, a in zip(f2.params, args): f2.locals[p["id"]] = a
+        body = [c for c in d.get("inner", []) if c.get("kind") == "CompoundStmt"][0]
+        self.active.append(d.get("id"))
+        try:
+            r = self.eval_block(list(body.get("inner", [])), f2, Walker(f2))
+        except Unsupported:
+            r = None
+        finally:
+            self.active.pop()
+        if r is None or r is NORET or r[1] is None: return None
+        for e in side_effects(body, f2) + f2.extra_effects:
+            if e not in fn.extra_effects: fn.extra_effects.append(e)
+        return r
+
+    def eval_block(self, sts, f2, w):
+        """value returned by the statement list (continuation style, so that early returns are understood)"""
+        for i, s in enumerate(sts):
+            k = s.get("kind")
+            if k == "ReturnStmt":
+                if not s.get("inner"): raise Unsupported()
+                return rx(s["inner"][0], f2)
+            if not contains_return(s):
+                tmp = []
+                w.stmts(s, tmp)
+                if tmp: raise Unsupported()
+                continue
+            rest = sts[i + 1:]
+            if k == "CompoundStmt":
+                return self.eval_block(list(s.get("inner", [])) + rest, f2, w)
+            if k == "IfStmt":
+                inner = s.get("inner", [])
+                if len(inner) < 2 or inner[0].get("kind") in ("DeclStmt",): raise Unsupported()
+                ct, cc = rx(inner[0], f2)
+                snap = dict(f2.locals)
+                a = self.eval_block([inner[1]] + rest, f2, w)
+                f2.locals = dict(snap)
+                b = self.eval_block(([inner[2]] if len(inner) > 2 else []) + rest, f2, w)
+                if a is NORET or b is NORET: raise Unsupported()
+                ce = ("ite", cc, a[1], b[1]) if None not in (cc, a[1], b[1]) else None
+                return ("(%s?%s:%s)" % (ct, a[0], b[0]), ce)
+            raise Unsupported()     # a return inside a loop / switch / try
+        return NORET
 
 # ---------------------------------------------------------------------------------------------------
 # per-target extraction
@@ -998,11 +1244,13 @@ def extract_method(tgt, cands, role, consts, inliner, asts):
         if cand["cls"] and cand["cls"] != tgt["cls"]: t2["cls"] = cand["cls"]
         fn = Fn(t2, d, file, role, consts, inliner)
         if fn.stream_id is None: continue
+        fn.objs = objs          # helper definitions are looked up among the declarations of the same clang process
         w = Walker(fn)
         items = []
         body = [c for c in d.get("inner", []) if c.get("kind") == "CompoundStmt"][0]
+        if role == "load": fn.alias = local_member_aliases(body, fn)
         w.stmts(body, items)
-        w.effects = side_effects(body, fn) if role == "save" else []
+        w.effects = (side_effects(body, fn) + [e for e in fn.extra_effects]) if role == "save" else []
         return dict(items=items, fn=fn, walker=w, method=(cand["cls"] + "::" if cand["cls"] else "") + cand["meth"], file=file, inherited=(cand["cls"] != tgt["cls"] and cand["cls"] is not None))
     return None
 
@@ -1241,7 +1489,9 @@ def main(argv):
                     src = "TagMember"
                 else:
                     tx, ce = rx(fe, sv["fn"])
-                    if ce is not None and ce[0] == "lit":
+                    if ce == ("var", "type"):       # a local copy of the member (const uint32_t t = type; saveValue(out, t);)
+                        src = "TagMember"
+                    elif ce is not None and ce[0] == "lit":
                         src = "TagConst %s" % cq(tx)
                     else:
                         src = "TagOther %s" % cq(tx)
@@ -1296,6 +1546,8 @@ def main(argv):
     summary = dict(repo=REPO, out=out_path, classes=names, problems=problems,
                    clang_errors={"%s:%s" % k: v for k, v in errs.items()},
                    time_clang=round(t1 - t0, 2), time_total=round(t2 - t0, 2),
+                   inlined={n: sorted(set(h for role in (1, 2) if res[n][role] for h in res[n][role]["fn"].inlined)) for n in names
+                            if any(res[n][role] and res[n][role]["fn"].inlined for role in (1, 2))},
                    opaque={n: [it for role in (1, 2) if res[n][role] for it in flat_opaque(res[n][role]["items"])] for n in names})
     summary["opaque"] = {k: v for k, v in summary["opaque"].items() if v}
     if json_path:
@@ -1316,6 +1568,7 @@ if __name__ == "__main__":
     s = main(sys.argv[1:])
     print("translate_schema: %d classes, %d problems, clang %.1fs, total %.1fs -> %s" %
           (len(s["classes"]), len(s["problems"]), s["time_clang"], s["time_total"], s["out"]))
+    for n, hs in sorted(s.get("inlined", {}).items()): print("  helpers inlined into %s: %s" % (n, ", ".join(hs)))
     for p in s["problems"]: print("  PROBLEM:", p)
     if CLANG_TIMEOUTS:
         print("  clang timed out on:", CLANG_TIMEOUTS)
